@@ -1,10 +1,9 @@
 SPECIFICATION Spec
 CONSTANTS
- Inputs <- MCInputs
- Fam = "plain"
- P1 = 4
+ Fam = "sensds"
+ P1 = 0
  P2 = 0
- Dev = {}
+ Dev = {"PairTable"}
 INVARIANT Shape
 INVARIANT Final
 INVARIANT RoundTrip
